@@ -156,7 +156,7 @@ class Ref:
             return not s.present
         if op == 'keys':
             return sorted(s.present)
-        if op == 'clone':
+        if op in ('clone', 'save_load', 'save_cut_load'):
             return None
         raise ValueError(op)
 
@@ -231,6 +231,19 @@ def compare(ref, snap, what=('present', 'groups', 'data', 'edges')):
     return out
 
 
+def _norm(sn):
+    # what an absent slot still holds is not observable; reserved counters are unconstrained
+    vs = []
+    for x in sn['vertices']:
+        if x is None:
+            vs.append(None)
+        elif x['branch'] == 0:
+            vs.append({'branch': 0})
+        else:
+            vs.append({'branch': x['branch'], 'persistence': x['persistence'], 'data': (x['data'] if x['persistence'] else []), 'edges': x['edges']})
+    return {'vertices': vs, 'branches': sn['branches'], 'stores': sn['stores'][2:], 'next_v': sn['next_v']}
+
+
 def judge(job, lines, crashed, stderr=''):
     """Compare a native replay (lines printed by the replay binary) with the model.
     Returns (violations: list of str, info)."""
@@ -274,6 +287,21 @@ def judge(job, lines, crashed, stderr=''):
         elif c['op'] == 'kids':
             if {lkey(a): t for a, t in got} != {lkey(a): t for a, t in exp} or len(got) != len(exp):
                 out.append("call %d %s returned %r, model says %r" % (k + 1, json.dumps(c), got, exp))
+        elif c['op'] == 'save_cut_load':
+            if got.get('ok'):
+                out.append("call %d: the image of %d bytes cut at %d is loaded as a graph instead of being rejected" % (k + 1, got.get('size', -1), c['cut']))
+        elif c['op'] == 'save_load':
+            if not got.get('ok'):
+                out.append("call %d: load(save(g)) fails: %s" % (k + 1, got.get('error')))
+            else:
+                a, b2 = _norm(got['loaded']), _norm(snap)
+                lowest = next((i for i, x in enumerate(snap['vertices']) if x is None or x['branch'] == 0), len(snap['vertices']))
+                b2['next_v'] = a['next_v'] if a['next_v'] <= lowest else 0
+                for key in ('vertices', 'branches', 'stores', 'next_v'):
+                    if a[key] != b2[key]:
+                        out.append("call %d load(save(g)): the loaded graph differs from the original in %s: %r vs %r" % (
+                            k + 1, key, json.dumps(a[key])[:200], json.dumps(b2[key])[:200]))
+                        break
         elif c['op'] == 'clone':
             cs = got.get('clone') if isinstance(got, dict) else None
             if cs is None:
